@@ -3,8 +3,8 @@
 EXTENDS HtmlQuote, ConfLib
 Case == Cases[i]
 \* the recursive reference decoder for ordinary sizes, the positional one (MC_HtmlQuote: they agree) for long texts
-Dec(q) == IF Len(q) <= 400 THEN UnquoteRec(q, 1) ELSE Unquote(q)
-Wq(q) == IF Len(q) <= 400 THEN WellQuotedRec(q, 1) ELSE WellQuoted(q)
+Dec(q) == IF Len(q) <= 64 THEN UnquoteRec(q, 1) ELSE Unquote(q)
+Wq(q) == IF Len(q) <= 64 THEN WellQuotedRec(q, 1) ELSE WellQuoted(q)
 \* P-layer: the statement of C32, nothing else
 POk(k) == Wq(k.q) /\ Dec(k.q) = k.s
 \* I-layer: the escape table as it is today (skipped for very long strings: quadratic in TLC)
